@@ -293,7 +293,7 @@ fn run(toks: &[&str]) -> String {
         let fresh: Vec<(u64, u64, char)> = {
           let mut g = log.0.lock().unwrap();
           if listener {
-            let deadline = Instant::now() + Duration::from_secs(5);
+            let deadline = Instant::now() + Duration::from_secs(60);
             while !g[seen..].iter().any(|n| n.0 == SENTINEL && n.1 == v) {
               let now = Instant::now();
               if now >= deadline {
